@@ -817,17 +817,42 @@ def continuation_same_line(run, R="TAB-op"):
             if lp:
                 loops.append(lp)
         lbs = [bi for bi, t in f.calls() if (t.get("resolved") or t.get("callee") or "").endswith("::next_linebreak")]
+
+        def consumes(h, depth=0):
+            """does the function (or a closure of it, or a parser helper it calls) consume an optional token?"""
+            fam = [h] + [g for g in run.prog.real_fns() if g.kind == "Closure" and (g.raw.get("root") or "") == h.id]
+            for g in fam:
+                for _, t_ in g.calls():
+                    c_ = t_.get("resolved") or t_.get("callee") or ""
+                    if re.search(r"Walker::<'src>::maybe_expect$", c_):
+                        return True
+                    h2 = run.prog.fn(c_)
+                    if depth < 2 and h2 is not None and h2.id != h.id and "ExpressionParser" in h2.id and re.search(r"::maybe_expect\w*$", h2.id) and consumes(h2, depth + 1):
+                        return True
+            return False
+
+        def asks_itself(h):
+            """a helper that asks for the line break itself before every optional token it consumes"""
+            lb_ = [bi for bi, t_ in h.calls() if (t_.get("resolved") or t_.get("callee") or "").endswith("::next_linebreak")]
+            me_ = [bi for bi, t_ in h.calls() if re.search(r"Walker::<'src>::maybe_expect$", t_.get("resolved") or t_.get("callee") or "")]
+            return bool(me_) and all(any(h.dominates(l, m) for l in lb_) for m in me_)
+
         for bi, t in f.calls():
-            if not re.search(r"Walker::<'src>::maybe_expect$", t.get("resolved") or t.get("callee") or ""):
+            c = t.get("resolved") or t.get("callee") or ""
+            direct = bool(re.search(r"Walker::<'src>::maybe_expect$", c))
+            helper = run.prog.fn(c) if not direct else None
+            if not direct and not (helper is not None and "ExpressionParser" in helper.id and re.search(r"::maybe_expect\w*$", helper.id) and consumes(helper)):
                 continue
             inside = [lp for lp in loops if bi in lp]
             if not inside:
                 continue
             n += 1
             outer = max(inside, key=len)
+            if helper is not None and asks_itself(helper):
+                continue
             if not any(l in outer and f.dominates(l, bi) for l in lbs):
                 bad.append("%s (%s)" % (f.loc(t["span"]), name.rsplit("::", 1)[-1]))
-    run.check(n >= 3 and not bad, R, R + "|continuation|same-line", "-", "every continuation of an expression (next operator, next `.name`) is preceded by a line-break test in the same round (%d site(s))" % n,
+    run.check(n >= 2 and not bad, R, R + "|continuation|same-line", "-", "every continuation of an expression (next operator, next `.name`) is preceded by a line-break test in the same round (%d site(s))" % n,
               "the expression parser continues an expression without asking for a line break first, or asks only once before its loop (%s): an operator or a dotted name at the start of the next line is taken as part of the expression on this line" % (", ".join(bad) or "continuation sites not found"))
 
 
